@@ -140,6 +140,10 @@ type Plan struct {
 	// HideInList: keys the cached client's List and Get do not show yet in this pass (the
 	// uncached client sees them).
 	HideInList []kmodel.Key
+	// StaleGet: keys for which the cached client's first Get of this pass answers with the version
+	// before the object's latest write (the informer has not delivered that write yet; it has by
+	// the time of a second Get).
+	StaleGet []kmodel.Key
 	// Interfere, when set, runs just before request number InterfereAt of the pass is sent
 	// (another actor's write landing between two calls of the pass).
 	Interfere   func(w *World)
@@ -289,8 +293,15 @@ func (e *Env) retarget(actor string, pass *Pass, plan *Plan) {
 			hide[k] = true
 		}
 	}
-	e.Client.Actor, e.Client.ListHide = actor, hide
-	e.cached.Actor, e.cached.ListHide = actor, hide
+	stale := map[kmodel.Key]int(nil)
+	if plan != nil && len(plan.StaleGet) > 0 {
+		stale = map[kmodel.Key]int{}
+		for _, k := range plan.StaleGet {
+			stale[k] = 1
+		}
+	}
+	e.Client.Actor, e.Client.ListHide, e.Client.Stale = actor, hide, stale
+	e.cached.Actor, e.cached.ListHide, e.cached.Stale = actor, hide, stale
 	e.Uncached.Actor = actor
 }
 
@@ -304,13 +315,19 @@ func (w *World) NewEnv(actor string, pass *Pass, plan *Plan) *Env {
 			base.ListHide[k] = true
 		}
 	}
+	if plan != nil && len(plan.StaleGet) > 0 {
+		base.Stale = map[kmodel.Key]int{}
+		for _, k := range plan.StaleGet {
+			base.Stale[k] = 1
+		}
+	}
 	cacheReader := *base
 	cacheReader.Cached = true
 	cacheReader.Filter = CacheVisible
 	im := &informerMap{reader: &cacheReader, live: map[schema.GroupVersionKind]*fakeInformer{}}
 	dc := dynamiccache.NewCacheForVerif(Scheme, im, w.Refs)
 	unc := *base
-	unc.ListHide = nil
+	unc.ListHide, unc.Stale = nil, nil
 	return &Env{W: w, Client: base, Uncached: &unc, Cache: dc, hook: h, cached: &cacheReader}
 }
 
@@ -348,7 +365,15 @@ func (e *Env) controller(kind string) reconciler {
 	case CtrlClusterPhase:
 		return objectsetphases.NewSameClusterClusterObjectSetPhaseController(log, Scheme, e.Cache, e.Uncached, PhaseClass, e.Client, Mapper)
 	case CtrlPhaseAnno:
-		return objectsetphases.NewMultiClusterObjectSetPhaseController(log, Scheme, e.Cache, e.Uncached, PhaseClass, e.Client, e.Client, Mapper)
+		// two clusters on one store: the management cluster's client (ObjectSetPhases live there) sees
+		// package-operator's own API objects only - the managed objects exist in the target cluster,
+		// which the cache, the uncached reader and the writer talk to
+		mgmt := *e.Client
+		mgmt.Filter = func(c map[string]any) bool {
+			av, _ := c["apiVersion"].(string)
+			return strings.HasPrefix(av, "package-operator.run/")
+		}
+		return objectsetphases.NewMultiClusterObjectSetPhaseController(log, Scheme, e.Cache, e.Uncached, PhaseClass, &mgmt, e.Client, Mapper)
 	case CtrlObjectDeployment:
 		return objectdeployments.NewObjectDeploymentController(e.Client, log, Scheme)
 	case CtrlClusterObjectDeploy:
@@ -460,6 +485,10 @@ func (w *World) Canon() string {
 		sort.Strings(ap)
 		if len(o.Legacy) > 0 {
 			sb.WriteString("|legacy-managers:" + strings.Join(o.Legacy, ","))
+		}
+		if w.Budget["stale-own"] > 0 && o.Prev != nil && k.Group == "package-operator.run" {
+			// (only while a system can still serve the previous version of an object to a pass)
+			sb.WriteString("|prev:" + canonContent(o.Prev, uidName))
 		}
 		sb.WriteString("|applied:")
 		aps := strings.ReplaceAll(strings.Join(ap, ","), "\x00", ".")
